@@ -153,6 +153,18 @@ Set(i, s, mode, fail) ==
      ELSE /\ Upd(i, Text(s), DSet(st[i], heap, Append(s, 0), 1))
           /\ Answer("set", arg, "ok", "na", 0, "na")
 
+(* mpt_identifier_set(id, data + k, n) with the source inside the identifier's own current content  *)
+(* (strip a prefix, truncate, set to itself): the bytes named at the time of the call are the new  *)
+(* name -- wherever the old content is kept and wherever the new one goes.                         *)
+SetSelf(i, k, n) ==
+  LET img == Image(name[i])
+      s   == SubSeq(img, k + 1, k + n)
+      arg == [id |-> i, off |-> k, n |-> n] IN
+  /\ Live(i) /\ k + n <= Len(img)
+  /\ IF n + 1 > Limit THEN Refuse("setself", arg)
+     ELSE /\ Upd(i, Text(s), DSet(st[i], heap, Append(s, 0), 1))
+          /\ Answer("setself", arg, "ok", "na", 0, "na")
+
 (* mpt_identifier_set(id, 0, n): n zero bytes of non-text data; n = 0 clears *)
 SetRaw(i, n) ==
   LET arg == [id |-> i, n |-> n] IN
@@ -220,12 +232,14 @@ Fini(i) ==
   /\ Answer("fini", [id |-> i], "ok", "na", 0, "na")
 
 (* mpt_identifier_init on fresh storage of `size` bytes (how = "init"),     *)
-(* mpt_identifier_new(size) (how = "new") or mpt_node_new(size) ("node");   *)
+(* mpt_identifier_new(size) (how = "new"), mpt_node_new(size) ("node"), or  *)
+(* the static initialisers MPT_IDENTIFIER_INIT ("macro": an object of       *)
+(* exactly sizeof(struct identifier)) and MPT_NODE_INIT ("nodemacro");      *)
 (* m is the inline capacity the storage got.                                *)
 InitMax(size) == IF size - 4 > 252 THEN 252 ELSE size - 4
 Make(i, size, how, m) ==
   /\ ~Live(i)
-  /\ Upd(i, Raw(0), [r |-> FreshRec(m, IF how = "new" THEN 0 ELSE 1), h |-> heap, bad |-> FALSE])
+  /\ Upd(i, Raw(0), [r |-> FreshRec(m, IF how \in {"new", "macro"} THEN 0 ELSE 1), h |-> heap, bad |-> FALSE])
   /\ Answer("make", [id |-> i, size |-> size, how |-> how], "ok", "na", 0, "na")
 
 (* construct slot i as a copy of slot j (type_traits init / copy           *)
@@ -260,6 +274,9 @@ Next ==
   \/ \E i \in Slots, j \in Slots : Copy(i, j, 0) \/ Copy(i, j, 1) \/ Inequal(i, j)
   \/ \E i \in Slots : CopyNull(i) \/ Fini(i)
   \/ \E i \in Slots, m \in Maxes : Make(i, m + 4, "init", m)
+  \/ \E i \in Slots : Make(i, TraitsMax + 4, "macro", TraitsMax) \/ Make(i, TraitsMax + 4, "nodemacro", TraitsMax)
+  \/ \E i \in Slots, k \in {0, 1, 3}, d \in {0, 1} :
+        Len(Image(name[i])) >= k + d /\ SetSelf(i, k, Len(Image(name[i])) - k - d)
   \/ \E i \in Slots, j \in 0..NId : TInit(i, j, 0) \/ TInit(i, j, 1)
   \/ \E i \in Slots, j \in Slots : \E s \in Near(TextOf(j)) : Compare(i, s, "len")
   \/ \E i \in Slots, j \in Slots : Compare(i, TextOf(j), "cstr") \/ Compare(i, Append(TextOf(j), 7), "cstr")
